@@ -380,6 +380,16 @@ func VerifC13History() {
 	repo := &Repository{Reference: registry.Reference{Registry: "r.io", Repository: "a/b"}, Client: reg}
 	uni := c13Universe()
 	tags := []string{"v1", "v2"}
+	verifrt.Event(fmt.Sprintf("profile digestHdr=%v ranges=%v", reg.digestHdr, reg.ranges))
+	if verifrt.Param("pre", 0) != 0 && verifrt.Bool() {
+		// start from a populated registry: all content present, the manifest tagged v1
+		reg.blobs[string(uni[0].desc.Digest)] = uni[0].data
+		reg.blobs[string(uni[1].desc.Digest)] = uni[1].data
+		reg.manifests[string(uni[2].desc.Digest)] = uni[2].data
+		reg.mediaTypes[string(uni[2].desc.Digest)] = uni[2].desc.MediaType
+		reg.tags["v1"] = string(uni[2].desc.Digest)
+		verifrt.Event("populated")
+	}
 	isMan := func(i int) bool { return i == 2 }
 	have := func(i int) bool {
 		if isMan(i) {
